@@ -4,6 +4,16 @@ import json, os
 V = os.path.dirname(os.path.dirname(os.path.abspath(__file__)))
 
 CHECKS = {
+    "C07": dict(
+        text="Coq theorems: under every schedule of local closers, the receive loop's exit and observers, Done closes once, IsConnected is its negation and never returns, err() is nil before and one fixed non-nil value after (also for a local Close or a loop that was never started); the receive loop goes on exactly for messages and the three not-found classes (the source's classification lists are regenerated). The harness runs traffic histories with not-found calls/notifications and stray responses/cancellations interleaved with valid calls both ways, every fatal class, and Close raced with the loop's exit in every order while three goroutines poll the accessors.",
+        note="Trusted: Coq kernel, extraction + OCaml glue, Go harness. The not-found reply path is checked on the implementation (reply frame with the same seqno naming what is missing; no handler runs; later calls succeed), not modelled as an LTS.",
+        technique="Coq proof (LTS invariant over all schedules; refutation of the pre-repair mechanism) + monitors and expectations on implementation traces + regenerated classification lists",
+        design="6/C07"),
+    "C10": dict(
+        text="Coq theorems (enabledness): after the transport has stopped every blocked caller/notifier has a step of its own, a sender whose context has ended always has one, the goroutines Close waits for (task loop, writer) can always move, stopping is irreversible; a reply has no stop arm and relies on its context (stated as a theorem). The harness cuts the incoming stream of a two-way session at every byte offset, fails every write, closes from the harness, from a handler and from 1-4 goroutines while library goroutines are parked at each public hook or blocked in Write, and requires every outstanding operation and every Close to return within the bound with an allowed error, and later operations to fail with io.EOF.",
+        note="PARTIAL: bounded time is observed (5 s harness bound), the theorems give enabledness. Fault points are the public hooks and every byte offset / write, not every statement (the statement-level instrumenter of DESIGN 4.3 was not built).",
+        technique="Coq proof (enabledness invariants over all schedules) + fault enumeration on the implementation",
+        design="6/C10"),
     "C09": dict(
         text="Coq theorems over a transition system of the serving side (receive goroutine, task loop, one goroutine per request, Close), for every schedule: a running handler's context is cancelled only because the peer cancelled that very call or the transport is closing, and once the task loop has exited every handler still running has been cancelled. The monitor is evaluated on event logs of the real transport for every set of <= 3 (thorough: 4, sampled 5) concurrent handlers, every finish/cancel order and a Close or EOF at every position, plus long histories and Close during request decoding.",
         note="Trusted: Coq kernel, extraction + OCaml glue, Go harness (a watcher goroutine per handler context). Environment hypotheses: the peer's call seqnos are non-negative and not reused while being served. The task-key mechanism is regenerated from the source (generated_ok).",
